@@ -16,8 +16,9 @@ from pathlib import Path
 VERIF = Path(__file__).resolve().parent.parent
 REPO = Path(os.environ.get("PDPY11_REPO", "/repo")).resolve()
 SPEC = VERIF / "spec"
-EVIDENCE = VERIF / "evidence"
-REPLAY = VERIF / "replay"
+_ALT = str(REPO) != "/repo"       # running against a scratch copy (mutation testing): keep /verif's evidence intact
+EVIDENCE = VERIF / "evidence" if not _ALT else Path("/tmp/verif-alt/evidence")
+REPLAY = VERIF / "replay" if not _ALT else Path("/tmp/verif-alt/replay")
 KNOWN = VERIF / "known_findings.json"
 PY = "/venv/bin/python"
 GUARD = "PDPY11_VERIF"
@@ -161,7 +162,7 @@ class Run:
             "wall_s": round(wall, 2),
             "violations": len(self.violations),
         }
-        EVIDENCE.mkdir(exist_ok=True)
+        EVIDENCE.mkdir(parents=True, exist_ok=True)
         (EVIDENCE / f"{self.pid}.json").write_text(json.dumps(ev, indent=1, default=str) + "\n")
         for fid, info in sorted(self.known_hits.items()):
             print(f"KNOWN-FINDING: property={self.pid} {fid}: {info['what']} (x{info['count']}, e.g. {info['example'][:160]})")
